@@ -413,6 +413,36 @@ Proof.
   rewrite andb_true_r. apply existsb_exists. exists o. auto.
 Qed.
 
+(* a dict request is coerced to the canonical request type of the method it is passed to — every mixin and legacy method *)
+Definition coerce_ok (n : string) : bool :=
+  match coerce_of n, find (fun r => String.eqb (cr_method r) n) CANON with
+  | Some ty, Some r => String.eqb ty (cr_in r)
+  | _, _ => false
+  end.
+Lemma coerce_checked : forallb coerce_ok (map t_name CLIENT_TMPL ++ LEGACY) = true.
+Proof. vm_compute. reflexivity. Qed.
+
+Lemma coerce_ok_spec n : coerce_ok n = true -> exists r, In r CANON /\ cr_method r = n /\ coerce_of n = Some (cr_in r).
+Proof.
+  unfold coerce_ok. destruct (coerce_of n) as [ty|]; [|discriminate].
+  destruct (find (fun r => String.eqb (cr_method r) n) CANON) as [r|] eqn:F; [|discriminate].
+  intro E. apply String.eqb_eq in E. apply find_some in F as [F1 F2]. apply String.eqb_eq in F2. exists r. subst. auto.
+Qed.
+
+Theorem dict_requests_coerced_to_canonical_type cfg k n o :
+  In (n, o) (client_coercions k cfg) -> exists r, In r CANON /\ n = snake (cr_method r) /\ o = Some (cr_in r).
+Proof.
+  unfold client_coercions. intro H. apply in_app_or in H as [H|H].
+  - apply in_map_iff in H as (t & E & Ht). apply filter_In in Ht as [Ht _]. injection E as E1 E2.
+    assert (C : coerce_ok (t_name t) = true).
+    { apply (proj1 (forallb_forall _ _) coerce_checked). apply in_or_app. left. now apply in_map. }
+    apply coerce_ok_spec in C as (r & R1 & R2 & R3). exists r. subst n o. rewrite R2. auto.
+  - destruct (c_add_iam cfg); [|contradiction]. apply in_map_iff in H as (nm & E & Hn). injection E as E1 E2.
+    assert (C : coerce_ok nm = true).
+    { apply (proj1 (forallb_forall _ _) coerce_checked). apply in_or_app. now right. }
+    apply coerce_ok_spec in C as (r & R1 & R2 & R3). exists r. subst n o. rewrite R2. auto.
+Qed.
+
 (* client templates: the routing header names the resource-name field of the canonical request *)
 Definition client_route_ok (t : tmethod) : bool :=
   existsb (fun r => String.eqb (cr_method r) (t_name t) && String.eqb (cr_route r) (t_route t)) CANON.
